@@ -168,7 +168,19 @@ fn cfg() -> SearchCfg {
 fn run_family(bytes: &[u8], ctx: &Ctx) -> CaseInfo {
     let mut s = Source::new(bytes);
     let p = gen_program(&mut s, &cfg());
-    eval(&p, ctx)
+    // a quarter of the cases each is built with the constructor functions of the public API
+    // (DFSDisj::from_conjunctions / DFSConj::from_vec, or pairwise DFSDisj::new / DFSConj::new)
+    // instead of the operators the macros expand to: the depth-first order must be the same
+    let mode = match bytes.iter().map(|b| *b as u32).sum::<u32>() % 4 {
+        0 => 1,
+        1 => 2,
+        _ => 0,
+    };
+    let mut info = crate::build::with_api_mode(mode, || eval(&p, ctx));
+    if mode != 0 {
+        info.class("built-with-constructor-functions");
+    }
+    info
 }
 
 fn run_scale(bytes: &[u8], ctx: &Ctx) -> CaseInfo {
